@@ -1145,8 +1145,17 @@ def twin_probe_jobs(rng, tier, registry, hits):
                 base = {a: b for a, b in args.items() if a != k}
                 for alt in [dv] + respellings(e["arg_type"][k], dv):
                     pairs.append((k, base, dict(base, **{k: alt})))
-        if tier == "quick" and len(pairs) > 3:
-            pairs = rng.sample(pairs, 3)
+        if tier == "quick" and len(pairs) > 12:
+            # keep every respelling of a numeric-looking value (two spellings of one number are where a helper named by
+            # the spelling but registered by the value goes wrong), then one pair per remaining argument, then a sample
+            numeric = [p_ for p_ in pairs if str(p_[2].get(p_[0], "")).lstrip("-+").replace(".", "", 1).isdigit()]
+            rest = [p_ for p_ in pairs if p_ not in numeric]
+            per_key = {}
+            for p_ in rest:
+                per_key.setdefault(p_[0], p_)
+            chosen = numeric[:8] + list(per_key.values())
+            extra = [p_ for p_ in rest if p_ not in chosen]
+            pairs = chosen + rng.sample(extra, max(0, min(len(extra), 12 - len(chosen))))
         for k, a, b in pairs:
             for order, (x, y) in (("ab", (a, b)), ("ba", (b, a))):
                 out.append((f"twin:{name}:{k}:{order}", dict(src=probe_program(e, x, y), pack_format=job["pack_format"], cert=job["cert"])))
